@@ -128,3 +128,22 @@ def cs_taskpool_counter(sc):
         return False, ("taskpool.New: the dispatcher runs the task inline after a failed fork without undoing fork's "
                        "AddInt64(&tp.concurrent, 1) (counter leak, DESIGN section 8 #10)")
     return True, ""
+
+
+def cs_nbhttp_close_routed(sc):
+    """nbhttp routes the close handling of a connection through Conn.MustExecute (so that, by
+    c05_close_after_earlier, it runs after every handler job queued before it), and the HTTP / WebSocket
+    message handlers through Execute."""
+    try:
+        eng = open(os.path.join(core.REPO, "nbhttp", "engine.go")).read()
+        proc = open(os.path.join(core.REPO, "nbhttp", "processor.go")).read()
+        ws = open(os.path.join(core.REPO, "nbhttp", "websocket", "conn.go")).read()
+    except OSError as ex:
+        return False, "cannot read nbhttp sources: %s" % ex
+    if not re.search(r"g\.OnClose\(func\(c \*nbio\.Conn, err error\) \{\s*c\.MustExecute\(func\(\) \{", eng):
+        return False, "nbhttp/engine.go: the engine's OnClose handler no longer starts with c.MustExecute(func() {"
+    if len(re.findall(r"parser\.Execute\(func\(\) \{", proc)) < 2:
+        return False, "nbhttp/processor.go: message handlers are no longer submitted through parser.Execute"
+    if len(re.findall(r"\bc\.Execute\(func\(\) \{", ws)) < 2:
+        return False, "nbhttp/websocket/conn.go: message handlers are no longer submitted through c.Execute"
+    return True, ""
